@@ -367,3 +367,38 @@ def numpy_model_agrees_with_numpy_on_what_the_lemmas_use(x: float, i: int):
     d = np.array([{"q": x}, None])
     assert d.dtype == "O" and d.shape == (2,) and d[1] is None and d[0]["q"] == x
     assert np.array([[], []]).shape == (2, 0) and np.array([]).dtype.kind == "f"
+    r = np.reshape(np.repeat(i, 4), (2, 2))
+    assert r.shape == (2, 2) and r[1][1] == i and r.dtype.kind == "i" and next(r.flat) == i
+    g = np.array([np.array([x, 2.0]), None, [i, 3]], dtype=object)
+    assert g.shape == (3,) and g.dtype == "O" and g[1] is None and g[0][0] == x and g[2][0] == i
+    g[2] = np.array(g[2])
+    assert isinstance(g[2], np.ndarray) and g[2][1] == 3 and g.shape == (3,)
+    h = np.array([[x, x + 1.0], [x - 1.0, x + 2.0]]) == x
+    assert h.shape == (2, 2) and h[0].any() and not h[0].all() and not h[1].any()
+
+
+@lemma(gen={"n": [2, 3], "mask": (1, 6), "isint": [True, False], "a": (-50, 50), "b": (-50, 50), "c": (-50, 50), "d": (-50, 50), "e": (-50, 50), "f": (-50, 50)})
+def equal_shape_arrays_with_unset_positions_through_pack_and_unpack_special_data(
+    n: int, mask: int, isint: bool, a: int, b: int, c: int, d: int, e: int, f: int,
+    u: float, v: float, w: float, x: float, y: float, z: float):
+    """an object array whose entries are None or arrays of two numbers (same shape everywhere): packSpecialData ->
+    (rectangular numeric dataset, sentinel rows at the unset positions) -> unpackSpecialData; 2..3 objects, every proper
+    pattern of unset positions, integer (no element equal to the sentinel) or real contents"""
+    n = choose(n, 2, 3)
+    mask = choose(mask, 1, 2 ** n - 2)
+    unset = unset_pattern(n, mask)
+    vals = [[a, b], [c, d], [e, f]][:n] if isint else [[u, v], [w, x], [y, z]][:n]
+    if isint:
+        for row in vals:
+            assume(row[0] != INT_SENTINEL and row[1] != INT_SENTINEL)
+    values = np.array([None if unset[m] else np.array(vals[m]) for m in range(n)], dtype=object)
+    data, attrs = database.packSpecialData(values, "p")
+    assert data is not None and data.dtype.kind == ("i" if isint else "f") and data.shape == (n, 2), "a rectangular numeric dataset"
+    back = database.unpackSpecialData(data, attrs, "p")
+    assert len(back) == n
+    for m in range(n):
+        if unset[m]:
+            assert back[m] is None, "unset stays unset"
+        else:
+            assert back[m] is not None and tuple(back[m].shape) == (2,)
+            assert eq(back[m][0], vals[m][0]) and eq(back[m][1], vals[m][1]), "same values"
